@@ -916,4 +916,157 @@ Proof.
   - intros v. apply thr_next_ge. apply mk_thresholds_wf.
 Qed.
 
+(* ---- one step of a history ---- *)
+Lemma G_pair st c : G st (fst c, snd c) -> G st c.
+Proof. destruct c; auto. Qed.
+
+Theorem astep_sound rs cs o rs' :
+  rel rs cs -> hop_ok rs o -> astep rs o = Some rs' -> rel rs' (cstep cs o).
+Proof.
+  intros R OK H. pose proof R as [L RR].
+  destruct o; cbn [astep cstep hop_ok] in *.
+  - inversion H; subst. apply rel_set; auto. intros c _. apply G_top.
+  - inversion H; subst. apply rel_set; auto. intros c [].
+  - inversion H; subst. apply rel_set; auto.
+  - (* assign *)
+    inversion H; subst. apply rel_set; auto. intros c (s & mu & C & E1 & E2). destruct OK.
+    apply G_pair. rewrite E1. apply (G_mem_ext _ _ mu); auto. apply s_assign_sound; auto.
+  - inversion H; subst. apply rel_set; auto. intros c (s & mu & v & C & AS & E1 & E2).
+    destruct OK as (? & ? & ?).
+    apply G_pair. rewrite E1. apply (G_mem_ext _ _ mu); auto. apply s_arith_sound; auto.
+  - inversion H; subst. apply rel_set; auto. intros [s mu] [C S]. apply s_assume_sound; auto.
+  - (* forget *)
+    inversion H; subst. apply rel_set; auto. intros [s1 mu1] (s & mu & C & E1 & E2).
+    apply (s_forget_sound vs (aget rs r) s mu s1 mu1); auto.
+  - inversion H; subst. apply rel_set; auto. intros [s1 mu1] (s & mu & C & E1 & E2).
+    apply (s_forget1_sound v (aget rs r) s mu s1 mu1); auto.
+  - inversion H; subst. apply rel_set; auto. intros [s1 mu1] (s & mu & C & E1 & E2).
+    apply (s_project_sound vs (aget rs r) s mu s1 mu1); auto.
+  - (* expand *)
+    destruct v as [x|a], nv as [y|b]; cbn [s_expand cstep hop_ok] in *; inversion H; subst; clear H.
+    + apply rel_set; auto. intros c (s & mu & C & E1 & E2). destruct OK.
+      apply G_pair. rewrite E1. apply (G_mem_ext _ _ mu); auto. apply s_expand_scalar_sound; auto.
+    + apply rel_set; auto. intros c F. destruct F.
+    + apply rel_set; auto. intros c F. destruct F.
+    + apply rel_set; auto. intros [s1 mu1] (s & mu & C & E1 & E2 & E3). cbn [fst snd] in *. subst s1.
+      destruct OK as [LY FR]. apply (s_expand_array_sound a b (aget rs r) s mu mu1); auto.
+  - tauto.
+  - (* array_init *)
+    destruct (s_array_init a esz0 val (aget rs r)) as [st'|] eqn:E; inversion H; subst.
+    apply rel_set; auto. intros [s1 mu1] (s & mu & C & SZ & E1 & E2 & E3). cbn [fst snd] in *. subst s1.
+    destruct OK as [P1 P2]. apply (s_array_init_sound a esz0 val (aget rs r) st' s mu mu1); auto.
+  - destruct (s_array_load lhs a esz0 (aget rs r)) as [st'|] eqn:E; inversion H; subst.
+    apply rel_set; auto. intros c (s & mu & v & C & SZ & O & M & E1 & E2). destruct OK as (? & ? & ?).
+    apply G_pair. rewrite E1. apply (G_mem_ext _ _ mu); auto.
+    apply (s_array_load_sound lhs a esz0 (aget rs r) st' s mu (eval_le idx s) v); auto.
+  - destruct (s_array_store a esz0 val strong (aget rs r)) as [st'|] eqn:E; inversion H; subst.
+    apply rel_set; auto. intros [s1 mu1] (s & mu & C & SZ & ST & E1 & E2 & E3). cbn [fst snd] in *. subst s1.
+    destruct OK as (P1 & P2 & P3).
+    apply (s_array_store_sound a esz0 (eval_le idx s) val strong (aget rs r) st' s mu mu1); auto.
+  - destruct (s_array_store_range a esz0 val (aget rs r)) as [st'|] eqn:E; inversion H; subst.
+    apply rel_set; auto. intros [s1 mu1] (s & mu & C & SZ & E1 & E2 & E3). cbn [fst snd] in *. subst s1.
+    destruct OK as [P1 P2]. apply (s_array_store_range_sound a esz0 val (aget rs r) st' s mu mu1); auto.
+  - inversion H; subst. apply rel_set; auto. intros [s1 mu1] (s & mu & C & E1 & E2 & E3).
+    cbn [fst snd] in *. subst s1. apply (s_array_assign_sound lhs rhs (aget rs r) s mu mu1); auto.
+  - inversion H; subst. apply rel_set; auto. intros c [C|C]; apply s_join_sound; auto.
+  - tauto.
+  - inversion H; subst. apply rel_set; auto. intros c [C|C]; apply s_widen_sound; auto.
+  - tauto.
+  - inversion H; subst. apply rel_set; auto. intros c [C|C]; apply s_widen_thr_sound; auto.
+Qed.
+
+(* a history is admissible when each step meets its side condition in the state where it is
+   applied *)
+Fixpoint hist_ok (rs : list ast) (h : list ahop) : Prop :=
+  match h with
+  | [] => True
+  | o :: r => hop_ok rs o /\ match astep rs o with Some rs' => hist_ok rs' r | None => True end
+  end.
+
+Theorem ahistory_sound h : forall rs cs rs',
+  rel rs cs -> hist_ok rs h -> arun rs h = Some rs' -> rel rs' (fold_left cstep h cs).
+Proof.
+  induction h as [|o r IH]; simpl; intros rs cs rs' R OK H.
+  - inversion H; subst; auto.
+  - destruct OK as [O1 O2]. destruct (astep rs o) as [rs1|] eqn:E; [|discriminate].
+    eapply IH; eauto. eapply astep_sound; eauto.
+Qed.
+
+Lemma rel_top n : rel (repeat s_top n) (repeat (fun _ => True) n).
+Proof.
+  split. { rewrite !repeat_length; auto. }
+  intros r c _. unfold aget.
+  destruct (nth_in_or_default r (repeat s_top n) s_top) as [I|E].
+  - apply repeat_spec in I. rewrite I. apply G_top.
+  - rewrite E. apply G_top.
+Qed.
+
+(* ---- the statements of property C14 for the smashing domain ---- *)
+
+(* every value read from a cell is in the abstract value of the variable receiving the load *)
+Theorem aload_value_sound rs cs r lhs a e idx rs' :
+  rel rs cs -> hop_ok rs (ALoad r lhs a e idx) ->
+  astep rs (ALoad r lhs a e idx) = Some rs' -> (r < length rs)%nat ->
+  forall s mu v, cget cs r (s, mu) ->
+    eval_le e s = esz a -> cell_ok a (eval_le idx s) -> mu a (eval_le idx s) = Some v ->
+    gamma (s_at (aget rs' r) lhs) v.
+Proof.
+  intros R OK RUN LT s mu v C SZ O M.
+  pose proof (astep_sound _ _ _ _ R OK RUN) as [LEN R'].
+  destruct R as [L _]. destruct OK as (IS & _).
+  specialize (R' r (upd s lhs v, mu)). cbn [cstep] in R'.
+  rewrite cget_csetr in R' by lia. rewrite Nat.eqb_refl in R'.
+  assert (GG : G (aget rs' r) (upd s lhs v, mu)).
+  { apply R'. exists s, mu, v. repeat split; auto. }
+  pose proof (G_at _ _ lhs GG IS) as X. cbn [fst] in X. rewrite upd_same in X. exact X.
+Qed.
+
+(* array operations never turn a reached state into bottom *)
+Theorem areach_not_bottom rs cs r c : rel rs cs -> cget cs r c -> s_is_bottom (aget rs r) = false.
+Proof. intros [_ R] C. eapply G_not_bottom; eauto. Qed.
+
+Theorem areach_at_sound rs cs r s mu x : rel rs cs -> cget cs r (s, mu) -> is_prog x ->
+  gamma (s_at (aget rs r) x) (s x).
+Proof. intros [_ R] C P. apply (G_at _ _ x (R _ _ C) P). Qed.
+
 End Smash.
+
+(* ---- non-vacuity: a history whose hypotheses hold, with a reached concrete state ---- *)
+Definition ex_esz : arr -> Z := fun _ => 4.
+Definition ex_one : arr -> option Z := fun _ => None.
+Definition ex_k (n : Z) : linexp := mkLE [] n.
+Definition ex_hist : list ahop :=
+  [ AInit 0%nat 0%N (ex_k 4) (ex_k 0) (ex_k 12) (ex_k 5);
+    AStore 0%nat 0%N (ex_k 4) (le_var (sv 1)) (ex_k 7) false;
+    ALoad 0%nat (sv 0) 0%N (ex_k 4) (ex_k 8) ].
+
+Example ex_hist_ok : hist_ok ex_esz ex_one [s_top] ex_hist.
+Proof.
+  assert (K : forall n, le_prog (ex_k n)) by (intros n c v []).
+  assert (V : le_prog (le_var (sv 1))).
+  { intros c v [E|[]]. inversion E; subst. apply sv_prog. }
+  cbn [hist_ok ex_hist hop_ok]. repeat split; auto; try apply sv_prog.
+  all: vm_compute; auto.
+Qed.
+
+Example ex_hist_run :
+  exists rs', arun [s_top] ex_hist = Some rs' /\
+              s_at (aget rs' 0%nat) (sv 0) = mkI (Fin 5) (Fin 7).
+Proof. eexists. split; vm_compute; reflexivity. Qed.
+
+Example ex_hist_reached :
+  exists c, cget (fold_left (cstep ex_esz ex_one) ex_hist [fun _ => True]) 0%nat c /\ fst c (sv 0) = 5.
+Proof.
+  set (s0 := fun _ : var => 0).
+  set (mu1 := fun (a : arr) (i : Z) => if N.eqb a 0 then Some 5 else None).
+  set (mu2 := fun (a : arr) (i : Z) => if N.eqb a 0 then (if i =? 0 then Some 7 else Some 5) else None).
+  exists (upd s0 (sv 0) 5, mu2). split; [|apply upd_same].
+  cbn [fold_left ex_hist cstep cget csetr nth].
+  exists s0, mu2, 5. repeat split; auto.
+  exists s0, mu1. repeat split; auto.
+  - exists s0, (fun _ _ => None). repeat split; auto.
+    + intros a i N. unfold mu1. cbn [snd]. destruct (N.eqb a 0) eqn:E; auto. apply N.eqb_eq in E. congruence.
+    + intros i v H. unfold mu1 in H. cbn in H. inversion H. reflexivity.
+  - discriminate.
+  - intros a i N. unfold mu1, mu2. cbn [snd]. destruct (N.eqb a 0) eqn:E; auto. apply N.eqb_eq in E. congruence.
+Qed.
